@@ -330,6 +330,8 @@ BuildR(i, Hd, App, acc) == IF i = 0 THEN acc
 \*            Ground): equal and opposite forces along the line between the points -- f d on point 1, -f d on point 2, d the unit
 \*            vector from 1 to 2, f = k (x - x0), c xdot, -force respectively.  The unit vector needs a square root: the spec delivers the
 \*            exact ingredients (p, p . pdot, the two lever arms) and the checker finishes; these elements are left out of the exact sums
+\*   "lbush"  LinearBushing across a Bushing mobilizer with the same frames: generalized force -(k_i q_i + c_i qdot_i) on that mobilizer's six
+\*            mobilities, PE = sum k_i q_i^2 / 2; three of the q are angles (irrational): the checker evaluates the law from the lattice coordinates
 \*   "cable"  CableSpring along a CablePath through points fixed on bodies (origin, via points -- some disabled --, termination): a
 \*            uniform tension acts along every straight segment between consecutive active points; the spec delivers the exact
 \*            position, velocity and lever arm of every point, the checker finishes lengths and unit vectors (square roots)
@@ -367,8 +369,12 @@ Eval(dyn, ud, F, q2, u2, tasks, cons, felems, felems2) ==
       BodyP(b) == IF b = 0 THEN VZero ELSE X[b].p
       \* ---- force elements
       IV3(v) == VI(v[1], v[2], v[3])
-      ForceEval(FL) ==
+      \* (su: the speeds at which the velocity-dependent laws, the power and dPE/dt are evaluated)
+      ForceEval(FL, su) ==
         LET NF == Len(FL)
+            Vs == TLCEval(Vels(X, su, ZeroU))
+            Bs == BodyV(X, Vs)
+            sf == TLCEval([j \in 1..ND |-> R(su[Dofs[j][1]][Dofs[j][2]])])
             On(e) == e.on = 1
             Grav(e, b) == (e.type = "ugravity") \/ (e.type = "gravity" /\ e.ex[b] = 0)
             BodyW(e, b) ==       \* the element's spatial force on body b at the body origin
@@ -381,9 +387,10 @@ Eval(dyn, ud, F, q2, u2, tasks, cons, felems, felems2) ==
             MobF(e, j) ==        \* the element's generalized force on the flattened mobility j
               LET d == Dofs[j] IN
               IF ~On(e) THEN Zero
-              ELSE IF e.type = "gdamper" THEN R(-(e.c * u[d[1]][d[2]]))
+              ELSE IF e.type = "gdamper" THEN R(-(e.c * su[d[1]][d[2]]))
+              ELSE IF e.type = "lbush" THEN Zero           \* (its angles are irrational: finished by the checker from the lattice coordinates)
               ELSE IF e.type \in {"mcf", "mls", "mld"} /\ e.b = d[1] /\ e.k = d[2] THEN
-                     (IF e.type = "mcf" THEN R(e.c) ELSE IF e.type = "mld" THEN R(-(e.c * u[d[1]][d[2]])) ELSE R(-(e.c * (q[d[1]][e.k].k - e.q0))))
+                     (IF e.type = "mcf" THEN R(e.c) ELSE IF e.type = "mld" THEN R(-(e.c * su[d[1]][d[2]])) ELSE R(-(e.c * (q[d[1]][e.k].k - e.q0))))
               ELSE Zero
             PE2(e) ==            \* twice the potential energy
               IF ~On(e) THEN Zero
@@ -394,16 +401,16 @@ Eval(dyn, ud, F, q2, u2, tasks, cons, felems, felems2) ==
             DPE(e) ==            \* d/dt of the potential energy
               IF ~On(e) THEN Zero
               ELSE IF e.type \in {"gravity", "ugravity"} THEN
-                     SumRS(TLCEval([b \in 1..N |-> IF Grav(e, b) THEN RNeg(RMul(Mass(b), Dot(IV3(e.g), Bu[b].vc))) ELSE Zero]), N)
-              ELSE IF e.type = "mls" THEN R(e.c * (q[e.b][e.k].k - e.q0) * u[e.b][e.k])
+                     SumRS(TLCEval([b \in 1..N |-> IF Grav(e, b) THEN RNeg(RMul(Mass(b), Dot(IV3(e.g), Bs[b].vc))) ELSE Zero]), N)
+              ELSE IF e.type = "mls" THEN R(e.c * (q[e.b][e.k].k - e.q0) * su[e.b][e.k])
               ELSE Zero
-            Power(e) == RAdd(SumRS(TLCEval([b \in 1..N |-> LET W == BodyW(e, b) IN RAdd(Dot(W.t, Vu[b].w), Dot(W.f, Vu[b].v))]), N),
-                             SumRS(TLCEval([j \in 1..ND |-> RMul(MobF(e, j), uf[j])]), ND))
+            Power(e) == RAdd(SumRS(TLCEval([b \in 1..N |-> LET W == BodyW(e, b) IN RAdd(Dot(W.t, Vs[b].w), Dot(W.f, Vs[b].v))]), N),
+                             SumRS(TLCEval([j \in 1..ND |-> RMul(MobF(e, j), sf[j])]), ND))
             Cons(e) == e.type \in {"gravity", "ugravity", "mls"}
             Diss(e) == e.type \in {"mld", "gdamper"}
             TwoPt(e) ==
               IF e.type \in {"tpls", "tpld", "tpcf"} THEN
-                LET B1 == BodyK(Vu, e.b)  B2 == BodyK(Vu, e.b2)
+                LET B1 == BodyK(Vs, e.b)  B2 == BodyK(Vs, e.b2)
                     r1 == MV(BodyR(e.b), IV3(e.st))  r2 == MV(BodyR(e.b2), IV3(e.st2))
                     pp == VSub(VAdd(BodyP(e.b2), r2), VAdd(BodyP(e.b), r1))
                     pd == VSub(VAdd(B2.v, Cross(B2.w, r2)), VAdd(B1.v, Cross(B1.w, r1)))
@@ -412,7 +419,7 @@ Eval(dyn, ud, F, q2, u2, tasks, cons, felems, felems2) ==
               ELSE [p |-> VZero, pv |-> Zero, r1 |-> VZero, r2 |-> VZero, o1 |-> VZero, o2 |-> VZero, v1 |-> VZero, v2 |-> VZero]
             CablePts(e) ==
               IF e.type = "cable" THEN
-                [i \in 1..Len(e.pts) |-> LET pt == e.pts[i]  B == BodyK(Vu, pt.b)  r == MV(BodyR(pt.b), IV3(pt.st)) IN
+                [i \in 1..Len(e.pts) |-> LET pt == e.pts[i]  B == BodyK(Vs, pt.b)  r == MV(BodyR(pt.b), IV3(pt.st)) IN
                                           [p |-> VAdd(BodyP(pt.b), r), v |-> VAdd(B.v, Cross(B.w, r)), r |-> r]]
               ELSE <<>>
         IN [twopt |-> [k \in 1..NF |-> TwoPt(FL[k])],
@@ -425,8 +432,9 @@ Eval(dyn, ud, F, q2, u2, tasks, cons, felems, felems2) ==
             \* C12 on the spec itself: an element with a potential delivers power -dPE/dt; a damper never delivers positive power
             powerIsMinusDPE |-> \A k \in 1..NF : Cons(FL[k]) => Power(FL[k]) = RNeg(DPE(FL[k])),
             dampersDissipate |-> \A k \in 1..NF : Diss(FL[k]) => Power(FL[k]).n <= 0]
-      FZ1 == ForceEval(felems)
-      FZ2 == ForceEval(felems2)
+      FZ1 == ForceEval(felems, u)
+      FZ2 == ForceEval(felems2, u)
+      FZ3 == ForceEval(felems2, u2)      \* the same State after a u-only change (second parameter set still in force)
       \* ---- constraints
       NC == Len(cons)
       AxisV(a) == << Red(a.n[1], a.e), Red(a.n[2], a.e), Red(a.n[3], a.e) >>
@@ -539,7 +547,8 @@ Eval(dyn, ud, F, q2, u2, tasks, cons, felems, felems2) ==
       \* them must reproduce
       forces |-> [body |-> FZ1.body, mob |-> FZ1.mob, pe2 |-> FZ1.pe2, power |-> FZ1.power, twopt |-> FZ1.twopt, cable |-> FZ1.cable],
       forces2 |-> [body |-> FZ2.body, mob |-> FZ2.mob, pe2 |-> FZ2.pe2, power |-> FZ2.power, twopt |-> FZ2.twopt, cable |-> FZ2.cable],
-      forceLaws |-> FZ1.powerIsMinusDPE /\ FZ1.dampersDissipate /\ FZ2.powerIsMinusDPE /\ FZ2.dampersDissipate,
+      forces3 |-> [body |-> FZ3.body, mob |-> FZ3.mob, pe2 |-> FZ3.pe2, power |-> FZ3.power, twopt |-> FZ3.twopt, cable |-> FZ3.cable],
+      forceLaws |-> FZ1.powerIsMinusDPE /\ FZ1.dampersDissipate /\ FZ2.powerIsMinusDPE /\ FZ2.dampersDissipate /\ FZ3.powerIsMinusDPE /\ FZ3.dampersDissipate,
       cons |-> [k \in 1..NC |-> [perr |-> ConsAt0[k].perr, verr |-> ConsAt0[k].verr, aerr0 |-> ConsAt0[k].aerr, aerr |-> ConsAtUd[k].aerr,
                                   verrU2 |-> ConsAtU2[k].verr, aerr0U2 |-> ConsAtU2[k].aerr]],
       G |-> G,
